@@ -1,6 +1,7 @@
 import ESV.Comp.FrontW13
 import ESV.Comp.CodegenF0e
 import ESV.Comp.CgFinal
+import ESV.Comp.CgFinal5
 import ESV.Props.C01Backend
 /-
 C01, front end — what is proved about the compiler's front end (the code generator: `ESV.Comp.frontend`, model of
@@ -163,8 +164,10 @@ theorem compile_correct_level (lv : Nat) (p : Program) (res : Result) (hp : CgPr
         rw [hr] at hf
         simp only [Except.ok.injEq] at hf
         subst hf
-        obtain ⟨its, _, _, _, _, hits, _⟩ := (compileRoutines_cg { rs := [], N := [], hlab := List.nodup_nil, defs := allDefs p } 1 lv
-          p.routines 0 _ _ _ _ hseq rfl rfl hall hml rfl rfl (wrapAssert_ok hr)).2.2 j r hj
+        let cxD : Cx := { rs := [], N := [], hlab := List.nodup_nil, defs := allDefs p }
+        obtain ⟨its, _, _, _, _, hits, _⟩ := (compileRoutines_cg [] p.routines 0 _ _ _ _ hseq rfl rfl (fun r' hr' lb s ops s2 h' =>
+          (cStmts_c cxD 1 lv (macOK_nil cxD 1 rfl) r'.body lb (hall r' hr') (hml r' hr') {} (envOK_empty cxD rfl) s ops s2 h').stk)
+          rfl rfl (wrapAssert_ok hr)).2.2 j r hj
         simp only [Nat.zero_add] at hits
         rw [List.getElem?_eq_none h'] at hits
         cases hits
@@ -352,6 +355,129 @@ theorem undefined_label_counterexample :
     (run (toSrc undefJumpProg).graph.lts (fun _ => true) 6 0 (2 : Nat)).1 =
       [.op ⟨"a", []⟩, .stop (evInvalid "undefined label nowhere")] := by
   rw [undef_graph]
+  decide +kernel
+
+/-! ### fragment F5: F4 + macros -/
+
+/-- F5 programs: routines as in F4 with macro calls anywhere, and macros whose bodies are built from the same statements (macro
+calls included: macros may call each other, to any depth the front end accepts in the resolution order `p.macroOrder` it is
+given).  Asked of the macros (`CgProg5`, decidable):
+* the names of the macros are pairwise distinct (the language semantics takes the first macro of a name in source order, the
+  compiler the last one compiled);
+* the variables of a macro are pairwise distinct (`dict(zip(variables, args))` keeps the last value of a repeated variable,
+  the language semantics the first);
+* every user label of a macro body is defined once in it, and a macro body only mentions (`jump`, `call`) labels it defines:
+  the labels of a macro are private to each expansion, in the language semantics (`labelsOfStmts m.body` allocated at the call)
+  as in the compiler (`new_labels`), a label of a routine or of another macro is not visible in it;
+* as everywhere in F0…F5 no plain operation is named `Return` (`cgSimple`): inside a macro `build` turns every op of that name
+  into a jump to the end label, the language semantics only the statement `return;`.
+Not in the model, hence not covered (they stay per program: C05 / C08 / C10): imports, source maps, position marks. -/
+def F5Prog (p : Program) : Prop := CgProg5 p
+
+instance (p : Program) : Decidable (F5Prog p) := by unfold F5Prog; infer_instance
+
+/-- **The code generator is correct on F5**: a macro call means its body inlined (parameters substituted, labels private to each
+expansion, `return` leaves only the macro), for macros defined in any order and calling each other: source semantics of every
+routine ≈ labelled code of the front end. -/
+theorem codegen_correct_F5 (p : Program) (t : Tables) (hp : F5Prog p) (hf : frontend p = .ok t) (j : Nat) (r : Routine)
+    (hj : p.routines[j]? = some r) :
+    ∃ e, (toSrc p).graph.entries[j]? = some (some e) ∧
+      Equivalent (toSrc p).graph.lts (labLTS t.ops) e (labEntry t.ops j) :=
+  (codegen_correct_cg5 p t hp hf j r hj).2
+
+/-- **The compiler is correct on F5**, end to end: source semantics of every routine ≈ SSB machine on the compiled ops. -/
+theorem compile_correct_F5 (p : Program) (res : Result) (hp : F5Prog p) (h : compile p = .ok res) (j : Nat) (r : Routine)
+    (hj : p.routines[j]? = some r) :
+    ∃ e, (toSrc p).graph.entries[j]? = some (some e) ∧
+      Equivalent (toSrc p).graph.lts (Machine.lts ⟨flatten (conv res.ops)⟩) e (Machine.entry ⟨flatten (conv res.ops)⟩ j) := by
+  obtain ⟨t, hf, _, _, hb⟩ := compile_backend_equiv p res (frontGuard_of_cg5 p hp) h
+  obtain ⟨hlt, e, he, h1⟩ := codegen_correct_cg5 p t hp hf j r hj
+  exact ⟨e, he, h1.trans (hb j hlt)⟩
+
+/-- F4 programs are F5 programs -/
+theorem F5Prog_of_F4 (p : Program) (h : F4Prog p) : F5Prog p := by
+  obtain ⟨hm, hseq, hall, hnd, hml⟩ := h
+  refine ⟨hseq, fun r hr => cgStmts_mono (by decide) r.body (hall r hr), hnd, hml, by rw [hm]; exact List.nodup_nil, fun m hm' => ?_⟩
+  rw [hm] at hm'; cases hm'
+
+/-- non-vacuity: `macro m2(%y, %z) { m1(%y); b(%z); m1(%z); }  macro m1(%x) { §l; a(%x); if (Branch 1) { return; } jump @l; }
+def 0 { m2(1, 2); §l; c(); m1(3); jump @l; }` (a macro defined after its use, a nested call, a label `l` private to each
+expansion and a label `l` of the routine, `return` inside a macro) -/
+def exF5 : Program :=
+  ⟨[⟨"m2", ["y", "z"], .cons (.macroCall "m1" [.const "y"]) (.cons (.op "b" [.const "z"]) (.cons (.macroCall "m1" [.const "z"]) .nil))⟩,
+    ⟨"m1", ["x"], .cons (.label "l") (.cons (.op "a" [.const "x"])
+      (.cons (.ite false [⟨false, "Branch", [.int 1]⟩] (.cons .ret .nil) .nil false .nil) (.cons (.jump "l") .nil)))⟩],
+   ["m1", "m2"],
+   [⟨some 0, "r0", none, .cons (.macroCall "m2" [.int 1, .int 2]) (.cons (.label "l") (.cons (.op "c" [])
+      (.cons (.macroCall "m1" [.int 3]) (.cons (.jump "l") .nil))))⟩]⟩
+
+example : F5Prog exF5 := by decide
+example : ¬ F4Prog exF5 := by decide
+example : compiles exF5 = true := by decide
+
+/-- the op lists `compile` returns -/
+def compiledOps (p : Program) : Option (List (List Comp.Op)) :=
+  match compile p with
+  | .ok r => some r.ops
+  | .error _ => none
+
+/-- `macro d($x, $x) { a($x); }  def 0 { ~d(1, 2); }` -/
+def dupVarProg : Program :=
+  ⟨[⟨"d", ["x", "x"], .cons (.op "a" [.const "x"]) .nil⟩], ["d"], [⟨some 0, "r", none, .cons (.macroCall "d" [.int 1, .int 2]) .nil⟩]⟩
+
+theorem dupVar_graph : (toSrc dupVarProg).graph = ⟨#[.halt evReturn, .emit ⟨"a", [.int 1]⟩ 0], [some 1]⟩ := by
+  have h1 : (toSrc dupVarProg).routines = [⟨some (.cons (.macroCall "d" [.int 1, .int 2]) .nil)⟩] := rfl
+  have h2 : (toSrc dupVarProg).macros = [⟨"d", ["x", "x"], .cons (.op "a" [.const "x"]) .nil⟩] := rfl
+  simp only [Src.Program.graph, h1, h2, Src.allRoutineLabels, Src.labelsOfStmts, Src.labelsOf, List.flatMap_cons, List.flatMap_nil,
+    List.append_nil, Src.allocLabels, List.foldl_nil, List.foldl_cons, List.length_cons, List.length_nil]
+  simp only [Src.trStmts, Src.tr, Src.B.push, Src.substEv, List.find?, Src.allocLabels, Src.labelsOfStmts,
+    Src.labelsOf, List.foldl_nil, List.append_nil, beq_self_eq_true, List.length_cons, List.length_nil, Nat.reduceAdd, Nat.lt_irrefl,
+    ↓reduceIte, Src.substParam, List.map_cons, List.map_nil, List.zip_cons_cons, List.lookup_cons, List.nil_append]
+  rfl
+
+/-- **The conjunct "the variables of a macro are distinct" of `F5Prog` is needed.**  `macro d($x, $x) { a($x); }` called as
+`~d(1, 2)`: `build` looks the variable up in `dict(zip(variables, args))`, where the last value of a repeated key stays: the compiled
+code performs `a(2)` (the real compiler gives the same op list); the language semantics (`Src.tr`: the first binding of a name
+counts) says `a(1)`. -/
+theorem duplicate_macro_variable_counterexample :
+    ¬ F5Prog dupVarProg ∧ compiledOps dupVarProg = some [[⟨1, "a", [.int 2]⟩]] ∧
+    (run (Machine.lts ⟨flatten (conv [[⟨1, "a", [.int 2]⟩]])⟩) (fun _ => true) 6 0
+      (Machine.entry ⟨flatten (conv [[⟨1, "a", [.int 2]⟩]])⟩ 0)).1 = [.op ⟨"a", [.int 2]⟩, .stop evReturn] ∧
+    (toSrc dupVarProg).graph.entries = [some 1] ∧
+    (run (toSrc dupVarProg).graph.lts (fun _ => true) 6 0 (1 : Nat)).1 = [.op ⟨"a", [.int 1]⟩, .stop evReturn] := by
+  rw [dupVar_graph]
+  decide +kernel
+
+/-- `macro d() { Return(); c(); }  def 0 { ~d(); e(); }` : an operation written with the name `Return` -/
+def retOpProg : Program :=
+  ⟨[⟨"d", [], .cons (.op "Return" []) (.cons (.op "c" []) .nil)⟩], ["d"],
+   [⟨some 0, "r", none, .cons (.macroCall "d" []) (.cons (.op "e" []) .nil)⟩]⟩
+
+theorem retOp_graph : (toSrc retOpProg).graph =
+    ⟨#[.halt evReturn, .emit ⟨"e", []⟩ 0, .emit ⟨"c", []⟩ 1, .halt ⟨"Return", []⟩], [some 3]⟩ := by
+  have h1 : (toSrc retOpProg).routines = [⟨some (.cons (.macroCall "d" []) (.cons (.op "e" []) .nil))⟩] := rfl
+  have h2 : (toSrc retOpProg).macros = [⟨"d", [], .cons (.op "Return" []) (.cons (.op "c" []) .nil)⟩] := rfl
+  have e1 : Beh.endsFlow "Return" = true := by decide
+  have e2 : Beh.endsFlow "c" = false := by decide
+  have e3 : Beh.endsFlow "e" = false := by decide
+  simp only [Src.Program.graph, h1, h2, Src.allRoutineLabels, Src.labelsOfStmts, Src.labelsOf, List.flatMap_cons, List.flatMap_nil,
+    List.append_nil, Src.allocLabels, List.foldl_nil, List.foldl_cons, List.length_cons, List.length_nil]
+  simp only [Src.trStmts, Src.tr, Src.B.push, Src.substEv, List.find?, Src.allocLabels, Src.labelsOfStmts,
+    Src.labelsOf, List.foldl_nil, List.append_nil, beq_self_eq_true, List.length_cons, List.length_nil, Nat.reduceAdd, Nat.lt_irrefl,
+    ↓reduceIte, Src.substParam, List.map_cons, List.map_nil, List.zip_nil_left, List.nil_append, e1, e2, e3, Bool.false_eq_true]
+  rfl
+
+/-- **No operation named `Return` (`cgSimple`) is needed in F5.**  Inside a macro `build` turns every op named `Return` into a jump
+to the end label of the expansion, whether it was written as `return;` or as an operation `Return();`: the compiled code goes
+on with `e()` behind the call (the real compiler gives the same op list); in the language semantics only the statement
+`return;` leaves the macro, the operation `Return()` ends the routine. -/
+theorem return_op_in_macro_counterexample :
+    ¬ F5Prog retOpProg ∧ compiledOps retOpProg = some [[⟨1, "Jump", [.int 3]⟩, ⟨2, "c", []⟩, ⟨3, "e", []⟩]] ∧
+    (run (Machine.lts ⟨flatten (conv [[⟨1, "Jump", [.int 3]⟩, ⟨2, "c", []⟩, ⟨3, "e", []⟩]])⟩) (fun _ => true) 6 0
+      (Machine.entry ⟨flatten (conv [[⟨1, "Jump", [.int 3]⟩, ⟨2, "c", []⟩, ⟨3, "e", []⟩]])⟩ 0)).1 = [.op ⟨"e", []⟩, .stop evReturn] ∧
+    (toSrc retOpProg).graph.entries = [some 3] ∧
+    (run (toSrc retOpProg).graph.lts (fun _ => true) 6 0 (3 : Nat)).1 = [.stop ⟨"Return", []⟩] := by
+  rw [retOp_graph]
   decide +kernel
 
 end ESV.C01Frontend
